@@ -180,7 +180,7 @@ fn k_mtrl_sampler() {
 
 fn nmt_half(v: f32) -> [u8; 2] { half::f16::from_f32(v).to_bits().to_le_bytes() }
 fn nmt_val(row: usize, k: usize, per_row: usize) -> f32 { (row * per_row + k) as f32 / 4.0 }
-struct NmtSpec { dawntrail: bool, textures: Vec<&'static str>, keys: Vec<(u32, u32)>, constants: Vec<(u32, Vec<f32>)>, samplers: Vec<(u32, u32, u8)>, dye: bool }
+struct NmtSpec { dawntrail: bool, textures: Vec<&'static str>, keys: Vec<(u32, u32)>, constants: Vec<(u32, Vec<f32>)>, samplers: Vec<(u32, u32, u8)>, dye: bool, explicit_dims: bool }
 /// a material packed by hand in the order the format stores it
 fn nmt_material(sp: &NmtSpec) -> Vec<u8> {
     let mut strings: Vec<u8> = vec![]; let mut tex_off = vec![];
@@ -197,7 +197,7 @@ fn nmt_material(sp: &NmtSpec) -> Vec<u8> {
     o.extend_from_slice(&uv_off.to_le_bytes()); o.extend_from_slice(&0u16.to_le_bytes());
     o.extend_from_slice(&cs_off.to_le_bytes()); o.extend_from_slice(&1u16.to_le_bytes());
     o.extend_from_slice(&strings);
-    let flags: u32 = 0x4 | if sp.dye { 0x8 } else { 0 } | if sp.dawntrail { 0x53 << 4 } else { 0 };
+    let flags: u32 = 0x4 | if sp.dye { 0x8 } else { 0 } | if sp.dawntrail { 0x53 << 4 } else if sp.explicit_dims { 0x42 << 4 } else { 0 };
     o.extend_from_slice(&flags.to_le_bytes());
     let (rows, per_row) = if sp.dawntrail { (32usize, 32usize) } else { (16, 16) };
     for r in 0..rows { for k in 0..per_row {
@@ -218,14 +218,15 @@ fn nmt_material(sp: &NmtSpec) -> Vec<u8> {
 }
 fn nmt_specs() -> Vec<NmtSpec> {
     vec![
-        NmtSpec { dawntrail: false, textures: vec![], keys: vec![], constants: vec![], samplers: vec![], dye: false },
-        NmtSpec { dawntrail: false, textures: vec!["chara/equipment/e0001/texture/v01_c0101e0001_top_n.tex", "chara/common/texture/-tile_d.tex"], keys: vec![(0xB616DC5A, 0x5CC605B5)], constants: vec![(0x29AC0223, vec![0.5]), (0x575ABFB2, vec![1.0, 2.0, 3.0, 4.0])], samplers: vec![(0x0C5EC1F1, 0x000F8340, 0), (0x115306BE, 0x2, 1)], dye: true },
-        NmtSpec { dawntrail: true, textures: vec!["bg/ex5/01_xkt_x6/common/texture/x6a0_b0_flor1_d.tex"], keys: vec![(1, 2), (3, 4), (0xFFFFFFFF, 0)], constants: vec![(7, vec![1.5, -2.25]), (8, vec![0.0, 0.25, 1e9])], samplers: vec![(0x8A4E82B6, 7, 0)], dye: true },
-        NmtSpec { dawntrail: true, textures: vec!["a.tex", "b.tex", "c.tex"], keys: vec![], constants: vec![(9, vec![3.0])], samplers: vec![], dye: false },
+        NmtSpec { dawntrail: false, textures: vec![], keys: vec![], constants: vec![], samplers: vec![], dye: false, explicit_dims: false },
+        NmtSpec { dawntrail: false, textures: vec!["chara/equipment/e0001/texture/v01_c0101e0001_top_n.tex", "chara/common/texture/-tile_d.tex"], keys: vec![(0xB616DC5A, 0x5CC605B5)], constants: vec![(0x29AC0223, vec![0.5]), (0x575ABFB2, vec![1.0, 2.0, 3.0, 4.0])], samplers: vec![(0x0C5EC1F1, 0x000F8340, 0), (0x115306BE, 0x2, 1)], dye: true, explicit_dims: false },
+        NmtSpec { dawntrail: true, textures: vec!["bg/ex5/01_xkt_x6/common/texture/x6a0_b0_flor1_d.tex"], keys: vec![(1, 2), (3, 4), (0xFFFFFFFF, 0)], constants: vec![(7, vec![1.5, -2.25]), (8, vec![0.0, 0.25, 1e9])], samplers: vec![(0x8A4E82B6, 7, 0)], dye: true, explicit_dims: false },
+        NmtSpec { dawntrail: false, textures: vec!["legacy/with/explicit/4x16.tex"], keys: vec![(5, 6)], constants: vec![(11, vec![2.5, 3.5])], samplers: vec![(0x2B99E025, 1, 0)], dye: false, explicit_dims: true },
+        NmtSpec { dawntrail: true, textures: vec!["a.tex", "b.tex", "c.tex"], keys: vec![], constants: vec![(9, vec![3.0])], samplers: vec![], dye: false, explicit_dims: false },
     ]
 }
 
-//@unit props=C14 label=B tier=quick native=1 fn=mtrl::Material::from_existing bound="by execution: 4 hand-packed materials (legacy 16-row and Dawntrail 32-row colour tables with a distinct exactly-representable half in every slot, with and without dye tables, 0..3 textures, 0..3 keys, constants of 1..4 floats, 0..2 samplers)"
+//@unit props=C14 label=B tier=quick native=1 fn=mtrl::Material::from_existing bound="by execution: 5 hand-packed materials (legacy 16-row colour tables with implicit and with explicit 4x16 dimension bits, Dawntrail 32-row colour tables with a distinct exactly-representable half in every slot, with and without dye tables, 0..3 textures, 0..3 keys, constants of 1..4 floats, 0..2 samplers)"
 //@desc the parsed material returns the shader package name, the texture paths in order, the keys, every constant with its own floats and count, the samplers, and every colour-table and dye-table row holds the values stored at its own position (row r, slot k)
 #[test]
 fn native_mtrl_parse() {
